@@ -123,7 +123,8 @@ impl<'tcx> Cx<'tcx> {
                     }
                 }
             }
-            ty::Ref(_, t, _) | ty::RawPtr(t, _) => {
+            ty::Ref(_, t, _) => {
+                // `through_ptr` follows references only; raw pointers never own or keep alive
                 if through_ptr {
                     bits |= self.contains(t, through_ptr, stack);
                 }
